@@ -351,6 +351,19 @@ func (w *c10Writer) Add(_ *operation.QueuedOperation, protocolVersion uint64) er
 	return nil
 }
 
+// c10ToggleClient fails every version lookup while *fail is set.
+type c10ToggleClient struct {
+	*fx.Client
+	fail *bool
+}
+
+func (c c10ToggleClient) Get(t uint64) (protocol.Version, error) {
+	if *c.fail {
+		return nil, fmt.Errorf("protocol configuration store unavailable")
+	}
+	return c.Client.Get(t)
+}
+
 type c10PassThrough struct{}
 
 func (c10PassThrough) Decorate(op *operation.Operation) (*operation.Operation, error) { return op, nil }
@@ -371,6 +384,26 @@ func c10TwoVersionIntake(r *hx.Run, caseID, ns string, strict, base protocol.Pro
 			client := fx.NewClient(v0, v1)
 			if cur == 0 {
 				client.SetCurrent(v0)
+			}
+			// one handler: a request accepted for one version, then the protocol client's lookup FAILS for the next submission. A
+			// request that breaks the rules of the version it is submitted for must not get in on remembered / substituted rules
+			if !wantStrict {
+				for _, pair := range [][2]uint64{{0, 100}, {100, 0}, {57, 105}, {105, 57}} {
+					if (pair[1] < 100) != (layout == 0) {
+						continue // the second submission is not for the version with the parameters under test
+					}
+					fail := false
+					h := dochandler.New(ns, nil, c10ToggleClient{client, &fail}, &c10Writer{}, nil, fx.Metrics, dochandler.WithOperationDecorator(c10PassThrough{}))
+					_, _ = h.ProcessOperation(req, pair[0])
+					fail = true
+					_, err := h.ProcessOperation(req, pair[1])
+					r.Eval()
+					if err == nil {
+						r.Violation("handler-intake-accepts-after-failed-version-lookup", fmt.Sprintf("%s|handler|layout=%d|cur=%d|t=%d>%d", caseID, layout, cur, pair[0], pair[1]),
+							fmt.Sprintf("one DocumentHandler: ProcessOperation(request, %d), then the protocol-version lookup fails and ProcessOperation(request, %d) is accepted although the request breaks the rules of the version in force at %d", pair[0], pair[1], pair[1]), map[string]interface{}{"request": string(req)})
+						return
+					}
+				}
 			}
 			for _, t := range []uint64{0, 57, 100, 105} {
 				w := &c10Writer{}
@@ -403,7 +436,7 @@ func c10TwoVersionIntake(r *hx.Run, caseID, ns string, strict, base protocol.Pro
 
 func c10(r *hx.Run) {
 	fx.Quiet()
-	r.Rule = "(a) for each valid seed (4 types x 5 key types, nonce absent/present for Ed25519 and P-256) every limit parameter is set to measured value -1, +0, +1 while all other parameters are generous and pairwise distinct: accepted iff limit >= measured (nonce: == measured); requests padded with white space at the size limit; deltas containing characters that encoding/json escapes at the delta limit; every enabled-list entry used by the request is removed in turn; unrelated parameters are toggled; each of these cases is also submitted to a DocumentHandler with two protocol versions (the tested parameters in the first or the second, either one current) for times in both versions: judged by, and queued under, the version in force at the submitted time; (b) every JSON path of the request, the decoded signed data and the protected header is removed / replaced by 11 foreign values (re-signed): accepted => independent rule predicate; (c) Parse, ParseOperation(batch and not), GetRevealValue, GetCommitment, ParseDID on every prefix, every path-mutation and a DID-string grammar: error or value, never a panic. Non-trivial: distinct requests that the real parser rejects or that reach a boundary."
+	r.Rule = "(a) for each valid seed (4 types x 5 key types, nonce absent/present for Ed25519 and P-256) every limit parameter is set to measured value -1, +0, +1 while all other parameters are generous and pairwise distinct: accepted iff limit >= measured (nonce: == measured); requests padded with white space at the size limit; deltas containing characters that encoding/json escapes at the delta limit; every enabled-list entry used by the request is removed in turn; unrelated parameters are toggled; each of these cases is also submitted to a DocumentHandler with two protocol versions (the tested parameters in the first or the second, either one current) for times in both versions: judged by, and queued under, the version in force at the submitted time (also: after an accepted submission the version lookup fails - a rule-breaking request is not let in); (b) every JSON path of the request, the decoded signed data and the protected header is removed / replaced by 11 foreign values (re-signed): accepted => independent rule predicate; (c) Parse, ParseOperation(batch and not), GetRevealValue, GetCommitment, ParseDID on every prefix, every path-mutation and a DID-string grammar: error or value, never a panic. Non-trivial: distinct requests that the real parser rejects or that reach a boundary."
 	seeds := c10Seeds()
 	base := fx.DefaultProtocol()
 	ns := "did:sidetree"
